@@ -641,3 +641,89 @@ Example C03_mcast_nonvacuous :
     (C03Mcast.mtrace C03McastProofs.mstale 5 C03Mcast.minit
        [C03Mcast.MJoin 0; C03Mcast.MLeave 0; C03Mcast.MJoin 1; C03Mcast.MExit]) = false.
 Proof. exact C03McastProofs.mcast_nonvacuous. Qed.
+
+(* ---- 13. early exits and error paths of the transport adapters ----------------------------------
+   "… exactly the resources it held are released … the per-protocol active-connection counters are
+   back to their prior values", and never negative, ALSO for a viewer whose attach fails half-way.
+   Model/C03Adapter.v: an adapter (rtsp.Session.process, wsp.Session.process, flv.ConsumeByHTTP,
+   flv.ConsumeByWebsocket) is a list of instructions — counter Add / Release, StartConsume /
+   StopConsume, [IFallible] steps (stream lookup, FLV flags, every handshake request, the FLV header
+   write, serving) and [IDefer d] — executed with a fault at the f-th fallible step: the function
+   returns there and runs the cleanup deferred so far.  [adapter_prog a d b] is the shape all of them
+   have: a fallible steps that return without cleanup, the deferred cleanup, Add, b fallible steps,
+   StartConsume, serving.  Tied to /repo by the stream "adapter-faults" of checks/c03.py: fault
+   injection on the real adapters (clients dropping the connection after k answered requests; the
+   production FLV handlers on in-memory connections whose writes fail). *)
+From V Require C03Adapter C03AdapterProofs RunC03Faults C03FaultsWireProofs.
+
+(* the symbolic check [safe] of a program covers every fault point (induction over the program) *)
+Theorem C03_adapter_safe_covers_every_fault : forall c0 n0 p D s,
+  C03Adapter.safe c0 n0 p D s = true -> forall f, C03Adapter.settled c0 n0 (C03Adapter.exec f p D s) = true.
+Proof. exact C03AdapterProofs.safe_exec. Qed.
+Print Assumptions C03_adapter_safe_covers_every_fault.
+
+(* the discipline "nothing fallible between the deferred cleanup and the Add it pairs with" makes an adapter
+   balanced for every fault point, whatever the number of steps before, between and after: entered with counter
+   c0 and n0 consumers it leaves with exactly c0 and n0, the counter was never below c0, no consumer id is held *)
+Theorem C03_adapter_balanced_at_every_fault : forall a d b c0 n0 f,
+  d = [C03Adapter.OStop; C03Adapter.ORelease] \/ d = [C03Adapter.ORelease; C03Adapter.OStop] ->
+  let r := C03Adapter.exec f (C03Adapter.adapter_prog a d b) [] (C03Adapter.enter c0 n0) in
+  C03Adapter.a_conns r = c0 /\ C03Adapter.a_cons r = n0 /\ (c0 <= C03Adapter.a_low r)%Z /\
+  C03Adapter.a_cid r = false.
+Proof. exact C03AdapterProofs.adapter_balanced. Qed.
+Print Assumptions C03_adapter_balanced_at_every_fault.
+
+(* Add moved behind a fallible step whose cleanup is already deferred (the seeded change, for any adapter of the
+   shape): a fault at that step releases what was never added — the counter ends one below its prior value *)
+Theorem C03_adapter_late_add_refuted : forall a d b c0 n0,
+  d = [C03Adapter.OStop; C03Adapter.ORelease] \/ d = [C03Adapter.ORelease; C03Adapter.OStop] ->
+  let r := C03Adapter.exec a (C03Adapter.late_add_prog a d (S b)) [] (C03Adapter.enter c0 n0) in
+  C03Adapter.a_conns r = (c0 - 1)%Z /\ C03Adapter.a_low r = (c0 - 1)%Z.
+Proof. exact C03AdapterProofs.late_add_refuted. Qed.
+Print Assumptions C03_adapter_late_add_refuted.
+
+(* any sequence of attempts (any transport, any fault point) while other viewers are attached: after every
+   attempt the three counters and the consumer count are exactly what they were, and no counter was ever below
+   its value at the start; the oracle applied to the real adapters accepts the model, also on the wire *)
+Theorem C03_faults_meet_spec : forall bg l,
+  C03Adapter.faults_run C03Adapter.prog_of bg l = C03Adapter.faults_spec bg l.
+Proof. exact C03AdapterProofs.faults_meet_spec. Qed.
+Print Assumptions C03_faults_meet_spec.
+
+Theorem C03_faults_never_below_start : forall bg l,
+  C03Adapter.f_low (fold_left (C03Adapter.attempt C03Adapter.prog_of) l (C03Adapter.with_bg bg)) = 0%Z.
+Proof. exact C03AdapterProofs.faults_never_below. Qed.
+Print Assumptions C03_faults_never_below_start.
+
+Theorem C03_faults_model_passes : forall bg l,
+  C03Adapter.ok_faults bg l (C03Adapter.faults_run C03Adapter.prog_of bg l) = true.
+Proof. exact C03AdapterProofs.faults_model_passes. Qed.
+Print Assumptions C03_faults_model_passes.
+
+Theorem C03_faults_model_passes_on_the_wire : forall c,
+  RunC03Faults.x_C03_faults_ok (Val.VL [c; RunC03Faults.x_C03_faults_run c]) = Val.VI 1%Z.
+Proof. exact C03FaultsWireProofs.faults_model_passes_on_the_wire. Qed.
+Print Assumptions C03_faults_model_passes_on_the_wire.
+
+(* the seeded shape on ws-FLV: three failed header writes with a ws-rtsp viewer attached drive the FLV counter to
+   -1, -2, -3; every other fault point and the ordinary viewer behave as before *)
+Theorem C03_faults_late_add_wsflv_refuted :
+  C03Adapter.faults_run C03AdapterProofs.prog_late_flv [2%Z] [(5%Z, O, 2); (5%Z, O, 2); (5%Z, O, 2)] =
+    [(1, -1, 0, 1); (1, -2, 0, 1); (1, -3, 0, 1); (0, 0, 0, 0)]%Z /\
+  C03Adapter.ok_faults [2%Z] [(5%Z, O, 2); (5%Z, O, 2); (5%Z, O, 2)]
+    (C03Adapter.faults_run C03AdapterProofs.prog_late_flv [2%Z] [(5%Z, O, 2); (5%Z, O, 2); (5%Z, O, 2)]) = false /\
+  C03Adapter.faults_run C03AdapterProofs.prog_late_flv [] [(5%Z, O, 0); (5%Z, O, 1); (5%Z, O, 3); (5%Z, O, 9)] =
+    C03Adapter.faults_spec [] [(5%Z, O, 0); (5%Z, O, 1); (5%Z, O, 3); (5%Z, O, 9)].
+Proof. exact C03AdapterProofs.late_add_wsflv_refuted. Qed.
+Print Assumptions C03_faults_late_add_wsflv_refuted.
+
+(* non-vacuity: every transport at the fault points of its handshake, an RTSP/TCP and a ws-FLV viewer attached
+   throughout: counters (1, 1, 0) and two consumers after every attempt, zero at the end *)
+Example C03_faults_nonvacuous :
+  C03Adapter.faults_run C03Adapter.prog_of [0; 5]%Z C03AdapterProofs.faults_example =
+    map (fun _ => (1, 1, 0, 2)%Z) C03AdapterProofs.faults_example ++ [(0, 0, 0, 0)%Z] /\
+  C03Adapter.ok_faults [0; 5]%Z C03AdapterProofs.faults_example
+    (C03Adapter.faults_run C03Adapter.prog_of [0; 5]%Z C03AdapterProofs.faults_example) = true /\
+  C03Adapter.a_conns (C03Adapter.exec 2 (C03Adapter.prog_of 5 0) [] (C03Adapter.enter 1 2)) = 1%Z /\
+  C03Adapter.a_low (C03Adapter.exec 2 (C03Adapter.prog_of 5 0) [] (C03Adapter.enter 1 2)) = 1%Z.
+Proof. exact C03AdapterProofs.faults_nonvacuous. Qed.
